@@ -14,23 +14,23 @@ float **g_src;
 /* CBMC's memcpy/memset with symbolic kilobyte sizes do not scale (DESIGN 12.2b): range checks + arbitrary destination */
 void *memcpy(void *d, const void *s, size_t n) {
   __CPROVER_assert(n == 0 || (__CPROVER_r_ok(s, n) && __CPROVER_w_ok(d, n)), "memcpy source readable and destination writable for n bytes");
-  if (n > 0) __CPROVER_havoc_slice(d, n);
+  __CPROVER_assert(n <= sizeof(float) * (size_t)g_last_out, "copies no more than the decoder offered");
+  if (n > 0) __CPROVER_havoc_object(d);   /* whole row: over-approximation, values are not part of any obligation */
   return d;
 }
 void *memset(void *d, int c, size_t n) {
   __CPROVER_assert(n == 0 || __CPROVER_w_ok(d, n), "memset destination writable for n bytes");
-  if (n > 0) __CPROVER_havoc_slice(d, n);
+  if (n > 0) __CPROVER_havoc_object(d);   /* whole row: over-approximation, values are not part of any obligation */
   return d;
 }
-static float **rows_(int samples) {
-  float **p = malloc(sizeof(float *) * 2);
-  p[0] = malloc(sizeof(float) * samples); p[1] = g_chs > 1 ? malloc(sizeof(float) * samples) : NULL;
-  return p;
-}
+/* decoder rows: allocated once by the harness (DFCC forbids allocation inside a loop
+   under a loop contract); the number of valid floats in them is g_last_out */
+#define DEC_MAXROW (8192 + 4096)
+float **g_decrows;
 /* unit blk_pcmout: samples pending (>= 0) and one row per channel holding them */
 int vorbis_synthesis_pcmout(vorbis_dsp_state *v, float ***pcm) {
   int s = nondet_int(); __CPROVER_assume(s >= 0 && s <= 8192);
-  if (pcm) *pcm = rows_(s);
+  if (pcm) *pcm = g_decrows;
   g_last_out = s; if (s > 0) g_delivered = 1;
   return s;
 }
@@ -42,8 +42,8 @@ int vorbis_synthesis_read(vorbis_dsp_state *v, int samples) {
    decoder holds no position - impossible once pcmout has delivered samples in this call
    (the packet fetcher does not restart the decoder when it may not span links) */
 int vorbis_synthesis_lapout(vorbis_dsp_state *v, float ***pcm) {
-  int s = nondet_int(); __CPROVER_assume(s >= 0 && s <= 8192 + 4096 && (s > 0 || !g_delivered));
-  *pcm = rows_(s);
+  int s = nondet_int(); __CPROVER_assume(s >= 0 && s <= DEC_MAXROW && (s > 0 || !g_delivered));
+  *pcm = g_decrows; g_last_out = s;
   return s;
 }
 #endif
